@@ -56,7 +56,9 @@ REF = (0, "pymalloc", 0)
 PAIRS = [("arm", "x86_64"), ("riscv", "arm:thumb"), ("riscv:rvc", "or1k"), ("microblaze", "mips"), ("msp430", "xtensa")]
 QUICK_SKIP = {"pressure12", "pressure16", "pressure24", "pressure32", "pressure10c", "pressure14c", "pressure20c"}
 HEAVY = {"pressure24", "pressure32", "pressure20c"}
-QUICK_EXTRA = {"riscv": ["pressure12"], "riscv:rvc": ["pressure12"]}   # riscv needs >= 12 live values to show allocator choices
+# extra units per target pair in the quick tier: riscv needs >= 12 live values to show allocator choices,
+# pressure20c makes the x86_64/arm allocators spill coalesced nodes
+QUICK_EXTRA = {"arm": ["pressure20c"], "riscv": ["pressure12"], "riscv:rvc": ["pressure12"]}
 LEVELS = (0, 2)
 ASM = "asm:asm_basic"
 
@@ -303,7 +305,7 @@ def run(ctx):
         mine = shards(ctx.tier, c, ci, programs, asm_families)
         tasks += [("run", c, d) for d in mine]
         if c == (0, "malloc", 0):
-            dups += [("dup", c, d) for d in mine if "pat" in d]
+            dups += [("dup", c, d) for d in mine if "pat" in d][:(1 if ctx.tier == "quick" else len(mine))]
     # self-check of the harness: the reference configuration and the first glibc-malloc configuration are run a
     # second time and must reproduce themselves record by record (quick: the first script of every target pair)
     dups = [("dup", REF, d) for d in ref_shards if "pat" in d] + dups
@@ -321,8 +323,10 @@ def run(ctx):
     prog_rank[ASM] = len(programs)
     cfg_rank = {c: i for i, c in enumerate(cfgs)}
     reftab = {}     # (unit, target, level) -> reference record
+    refwhere = {}   # (unit, target, level) -> (shard, index) of the reference record
     refA = {}       # (cfg, shard) -> records kept for the comparison with the second run
     states = transitions = traces = 0
+    cpu = [0.0]
     unsupported = set()
 
     def check_records(cfg, d, recs):
@@ -333,11 +337,13 @@ def run(ctx):
             word = context_word(seq, rec["j"])
             ctx.collect("history_contexts", word)
             states += 1
+            cpu[0] += float(rec["cpu"])
             ctx.add()
             if key3 not in reftab:
                 if cfg != REF:
                     raise core.HarnessError("no reference for %r" % (key3,))
                 reftab[key3] = rec
+                refwhere[key3] = (d, rec["j"])
                 if "obj" in rec:
                     ctx.outcome((rec["target"], rec["level"], rec["obj"]))
                     if len(ctx.samples) < 3 and rec["size"] > 60:
@@ -359,7 +365,8 @@ def run(ctx):
             order = (prog_rank[rec["prog"]] * 100 + cfg_rank[cfg]) * 1000 + min(rec["j"], 999)
             j = rec["j"]
             witness = {"unit": list(key3), "cfg": list(cfg), "stage": stage, "history": word,
-                       "ops": seq[max(0, j - 2):j + 1], "shard": d, "j": j}
+                       "ops": seq[max(0, j - 2):j + 1], "shard": d, "j": j,
+                       "refshard": refwhere[key3][0], "refj": refwhere[key3][1]}
             ctx.violation(key, "%s for %s at -O%s, state [%s, history %s]" % (key3 + (cfg_str(cfg), word)), witness, order=order)
 
     pool = concurrent.futures.ThreadPoolExecutor(max_workers=max(1, core.NPROC))
@@ -401,6 +408,7 @@ def run(ctx):
     ctx.note("units", len({k[0] for k in reftab}))
     ctx.note("unit_target_level_triples", len(reftab))
     ctx.note("configuration_processes", len(tasks))
+    ctx.note("compile_cpu_s_excluding_process_startup", round(cpu[0]))
     ctx.note("unsupported_unit_target_level_triples", len(unsupported))
     ctx.note("unsupported_examples", sorted(unsupported)[:12])
     if len(reftab) - len(unsupported) < 20:
@@ -414,6 +422,15 @@ def side(cfg, ops, j=None):
     return {"cfg": list(cfg), "ops": [list(o) for o in ops], "j": len(ops) - 1 if j is None else j}
 
 
+def shard_side(cfg, d, j):
+    """Same, for a process of the exploration itself (the script is regenerated from the shard descriptor)."""
+    return {"cfg": list(cfg), "shard": d, "j": j}
+
+
+def side_ops(s):
+    return s["ops"] if "ops" in s else expand(s["shard"])
+
+
 def run_pair(w, repo):
     """Run the reference side and the diverging side of a witness, keeping the stage texts.
     -> (violated, detail, operations executed, record of the diverging side, locus stage)"""
@@ -421,7 +438,7 @@ def run_pair(w, repo):
     nops = 0
     for name in ("ref", "got"):
         s = w[name]
-        recs = launch(tuple(s["cfg"]), word_shard(s["ops"]), repo, want_texts=True)
+        recs = launch(tuple(s["cfg"]), word_shard(side_ops(s)), repo, want_texts=True)
         out[name] = recs[s["j"]]
         nops += len(recs)
     ref, got = out["ref"], out["got"]
@@ -446,12 +463,14 @@ def first_text_diff(ta, tb):
 
 def headline(w):
     unit, g = w["unit"], w["got"]
-    before = g["ops"][:g["j"]]
+    before = side_ops(g)[:g["j"]]
     hist = (" after " + ", ".join("%s@%s/O%s" % tuple(o) for o in before)) if before else " as first compilation of the process"
     if len(before) > 3:
-        hist = " as operation %d of a script of %d" % (g["j"], len(g["ops"]))
-    return "cc(%s, %s, opt_level=%s) in [%s]%s differs from the first compilation of a process in [%s]: " % (
-        unit[0], unit[1], unit[2], cfg_str(g["cfg"]), hist, cfg_str(REF))
+        hist = " as operation %d of a script of %d" % (g["j"], len(side_ops(g)))
+    r = w["ref"]
+    rhist = "the first compilation of a process" if r["j"] == 0 else "operation %d of a script of %d" % (r["j"], len(side_ops(r)))
+    return "cc(%s, %s, opt_level=%s) in [%s]%s differs from %s in [%s]: " % (
+        unit[0], unit[1], unit[2], cfg_str(g["cfg"]), hist, rhist, cfg_str(REF))
 
 
 def settle(found, repo):
@@ -463,15 +482,17 @@ def settle(found, repo):
     for c in ([ops[-1:]] if gcfg != REF else []) + [ops[-2:], ops]:
         if c and side(gcfg, c) not in cands:
             cands.append(side(gcfg, c))
-    cands.append(side(gcfg, expand(found["shard"]), found["j"]))   # last resort: exactly the process that was observed
+    cands.append(shard_side(gcfg, found["shard"], found["j"]))   # last resort: exactly the two processes that were observed
     detail = "?"
     for g in cands:
         w = {"unit": unit, "stage": found["stage"], "ref": side(REF, [unit]), "got": g}
+        if g is cands[-1]:
+            w["ref"] = shard_side(REF, found["refshard"], found["refj"])
         v, detail, n, got, stage = run_pair(w, repo)
         nops += n
         if not v or (g is not cands[-1] and stage != found["stage"]):
             continue   # no divergence, or one with another locus than the one this key names: keep looking
-        again = launch(gcfg, word_shard(g["ops"]), repo)   # the diverging state once more: it must reproduce itself
+        again = launch(gcfg, word_shard(side_ops(g)), repo)   # the diverging state once more: it must reproduce itself
         nops += len(again)
         if outcome_of(again[g["j"]]) != outcome_of(got):
             detail = "state [%s] gave %s, then %s" % (cfg_str(gcfg), describe(got), describe(again[g["j"]]))
@@ -483,4 +504,4 @@ def settle(found, repo):
 def replay(w):
     from vf import core
     violated, detail, _, _, _ = run_pair(w, core.REPO)
-    return violated, headline(w) + detail
+    return violated, (headline(w) + detail) if violated else (headline(w).replace(" differs from ", " and ").rstrip(": ") + " agree: " + detail)
